@@ -79,7 +79,8 @@ def seg_roles(crate):
         if util.self_recursive(b) or not any(t["fn"].get("name") == callee and (t["fn"].get("trait") or "").endswith("SegtreeItem") for bb, t in b.calls()):
             raise Anchor("%s is expected to be the non-recursive helper calling SegtreeItem::%s" % (nm, callee))
     R.helpers = util.private_helpers(crate, "Segtree", exclude=list(R.fn.values())) + [f_ for f_ in crate.bodies if not f_.is_closure and f_.kind == "Fn" and f_.container is None and f_.vis != "pub" and not util.self_recursive(f_) and "segtree_items" not in f_.path]
-    _A[0] = util.analyser(R.helpers)
+    _A[0] = util.analyser(R.helpers, features=("comb",))  # bool::then / Option::map with closures are case splits
+    R.A_with = lambda extra: util.analyser(R.helpers + list(extra), features=("comb",))
     return R
 
 
